@@ -69,6 +69,7 @@ struct Thread {
   void* arg = nullptr;
   int prio = 0;
   VC vc, acq_pending, rel_fence;
+  struct ViewT* views = nullptr;   // view-mode state (cur / acq / rel views)
   bool started = false;
 };
 
@@ -129,7 +130,12 @@ int g_low_prio = 0;
 int g_cas_weak_fail = 8;                 // 1/n spurious failures of compare_exchange_weak (0 = never)
 bool g_trace_all = false;
 bool g_payload_sched = false;            // plain accesses to vrt_payload ranges are scheduling points too
+bool g_payload_trace = false;           // opt-in: `prd` / `pwr` trace lines for plain accesses to vrt_payload ranges that are named
+bool g_trace_sleep = false;              // opt-in: `<tid> sleep <ns>` line for every controlled usleep/nanosleep
+bool g_yield_time = false;               // opt-in: sched_yield by the only runnable thread advances the clock to the next deadline
+bool g_trace_yield = false;              // opt-in: `ev yield` line for every controlled sched_yield
 bool g_trace_clock = false;              // opt-in: `ev clock <ns>` lines and ` to=<ns>` on timed fwait lines
+void (*g_clock_hook)(int, uint64_t) = nullptr;   // opt-in: called after every controlled clock_gettime (may sleep = stall injection)
 
 thread_local Thread* t_self = nullptr;
 
@@ -144,6 +150,8 @@ void tracef(const char* fmt, ...) {
   if (n > 0) g_trace.append(buf, std::min<size_t>(n, sizeof(buf) - 1));
 }
 
+bool (*g_resolver)(const void*, char*, size_t) = nullptr;
+
 bool loc_name(const volatile void* a, char* out, size_t cap) {
   uintptr_t p = (uintptr_t)a;
   for (auto it = g_named.rbegin(); it != g_named.rend(); ++it) {
@@ -156,6 +164,7 @@ bool loc_name(const volatile void* a, char* out, size_t cap) {
       return true;
     }
   }
+  if (g_resolver && g_resolver((const void*)a, out, cap)) return true;
   if (g_trace_all) {
     snprintf(out, cap, "?");
     return true;
@@ -276,7 +285,111 @@ void hb_fence(Thread* t, int mo) {
   if (rel(mo)) { t->rel_fence = t->vc; t->vc.c[t->id]++; }
 }
 
+
+// ---------------------------------------------------------------------------------------------
+// VRT_MEM=view: operational release/acquire "view" memory (DESIGN 3.4).  Real memory always holds
+// the latest value of every location; what changes is the value a *load* may return: any message
+// of the location's history that is not older than the thread's view of that location.  Histories
+// are kept per aligned 8-byte cell with whole-cell snapshots, so mixed-size accesses (a 16-bit
+// store into a 32-bit futex word) compose and stay coherent.  Strengthenings (all remove
+// behaviours, so every execution produced is allowed by C++20): modification order = execution
+// order, no load buffering, RMWs and CASes read the latest message, a seq_cst access also acts as
+// a seq_cst fence, atomics sharing a cell are coherent together.  A cell's history is dropped when
+// an instrumented plain write touches it or when memory no longer matches the last snapshot.
+struct View {
+  std::map<uintptr_t, uint32_t> ts;
+  uint32_t get(uintptr_t c) const { auto it = ts.find(c); return it == ts.end() ? 0 : it->second; }
+  void join(const View& o) { for (auto& kv : o.ts) { uint32_t& x = ts[kv.first]; if (kv.second > x) x = kv.second; } }
+};
+struct ViewT { View cur, acq, rel; };
+struct Msg { uint32_t ts; uint64_t value; View view; VC vc; };
+struct Cell { std::vector<Msg> msgs; uint32_t next_ts = 1; uint64_t mask = 0; };
+bool g_view = false;
+int g_stale = 35;                         // % of loads that may pick a non-latest admissible message
+uint64_t g_stale_reads = 0;
+std::map<uintptr_t, Cell> g_cells;
+View g_sc_view;
+std::map<const void*, View> g_mutex_view;
+
+inline uint64_t cell_mem(uintptr_t c) { uint64_t v; memcpy(&v, (const void*)c, 8); return v; }
+inline uint64_t byte_mask(unsigned off, unsigned size) { return (size >= 8 ? ~0ull : ((1ull << (size * 8)) - 1)) << (off * 8); }
+ViewT& vt(Thread* t) { if (!t->views) t->views = new ViewT; return *t->views; }
+
+Cell& cell_sync(uintptr_t c, uint64_t m) {
+  Cell& cl = g_cells[c];
+  uint64_t mem = cell_mem(c);
+  if (!cl.msgs.empty() && ((cl.msgs.back().value ^ mem) & cl.mask) != 0) cl.msgs.clear();   // changed behind our back
+  cl.mask |= m;
+  if (cl.msgs.empty()) cl.msgs.push_back(Msg {cl.next_ts++, mem, View(), VC()});
+  else cl.msgs.back().value = (cl.msgs.back().value & cl.mask) | (mem & ~cl.mask);
+  return cl;
+}
+void view_fence(Thread* t, int mo) {
+  ViewT& v = vt(t);
+  if (acq(mo)) v.cur.join(v.acq);
+  if (mo == 5) { v.cur.join(g_sc_view); g_sc_view = v.cur; }
+  if (rel(mo)) v.rel = v.cur;
+}
+// returns the (possibly stale) value read
+uint64_t view_load(Thread* t, const volatile void* a, unsigned size, int mo) {
+  uintptr_t p = (uintptr_t)a, c = p & ~7ull;
+  unsigned off = p & 7;
+  if (mo == 5) view_fence(t, 5);
+  Cell& cl = cell_sync(c, byte_mask(off, size));
+  ViewT& v = vt(t);
+  uint32_t floor = v.cur.get(c);
+  size_t lo = 0;
+  while (lo + 1 < cl.msgs.size() && cl.msgs[lo].ts < floor) ++lo;
+  size_t pick = cl.msgs.size() - 1;
+  if (lo < pick && (int)g_rng.below(100) < g_stale) { pick = lo + g_rng.below(pick - lo + 1); }
+  if (pick != cl.msgs.size() - 1) ++g_stale_reads;
+  Msg& m = cl.msgs[pick];
+  uint32_t& cur = v.cur.ts[c];
+  if (m.ts > cur) cur = m.ts;
+  if (acq(mo)) { v.cur.join(m.view); t->vc.join(m.vc); } else { v.acq.join(m.view); t->acq_pending.join(m.vc); }
+  if (cl.msgs.size() > 64) cl.msgs.erase(cl.msgs.begin(), cl.msgs.begin() + 32);
+  return (m.value >> (off * 8)) & (size >= 8 ? ~0ull : ((1ull << (size * 8)) - 1));
+}
+// record a write that has just been performed on real memory; `rmw`: continues the release sequence
+void view_wrote(Thread* t, const volatile void* a, unsigned size, int mo, bool rmw) {
+  uintptr_t p = (uintptr_t)a, c = p & ~7ull;
+  Cell& cl = g_cells[c];
+  cl.mask |= byte_mask(p & 7, size);
+  ViewT& v = vt(t);
+  Msg m;
+  m.ts = cl.next_ts++;
+  m.value = cell_mem(c);
+  m.view = rel(mo) ? v.cur : v.rel;
+  m.vc = rel(mo) ? t->vc : t->rel_fence;
+  if (rmw && !cl.msgs.empty()) { m.view.join(cl.msgs.back().view); m.vc.join(cl.msgs.back().vc); }
+  m.view.ts[c] = m.ts;
+  v.cur.ts[c] = m.ts;
+  cl.msgs.push_back(m);
+  if (rel(mo)) t->vc.c[t->id]++;
+  if (mo == 5) view_fence(t, 5);
+}
+// acquire side of an RMW / CAS: reads the latest message
+void view_read_latest(Thread* t, const volatile void* a, unsigned size, int mo) {
+  uintptr_t p = (uintptr_t)a, c = p & ~7ull;
+  if (mo == 5) view_fence(t, 5);
+  Cell& cl = g_cells[c];
+  if (cl.msgs.empty()) cell_sync(c, byte_mask(p & 7, size));
+  ViewT& v = vt(t);
+  Msg& m = cl.msgs.back();
+  v.cur.ts[c] = m.ts;
+  if (acq(mo)) { v.cur.join(m.view); t->vc.join(m.vc); } else { v.acq.join(m.view); t->acq_pending.join(m.vc); }
+}
+inline void view_plain_write(const void* addr, size_t size) {
+  if (g_cells.empty()) return;
+  uintptr_t p = (uintptr_t)addr;
+  for (uintptr_t c = p & ~7ull; c < p + size; c += 8) {
+    auto it = g_cells.find(c);
+    if (it != g_cells.end()) g_cells.erase(it);
+  }
+}
+
 void payload_access(const void* addr, size_t size, bool write) {
+  if (g_view && write && g_on) view_plain_write(addr, size);
   if (g_payload.empty() || !controlled()) return;
   uintptr_t p = (uintptr_t)addr;
   const Payload* pl = nullptr;
@@ -285,6 +398,26 @@ void payload_access(const void* addr, size_t size, bool write) {
   if (!pl) return;
   if (g_payload_sched) reschedule(false);
   Thread* t = t_self;
+  if (g_payload_trace) {
+    // the access itself follows this call with no scheduling point in between, so the memory
+    // content read here is the value a load observes; pointers are printed symbolically
+    char nm[160];
+    if (loc_name(addr, nm, sizeof nm)) {
+      if (write) {
+        tracef("%d pwr %s %lu\n", t->id, nm, (unsigned long)size);
+      } else {
+        char val[176] = "?";
+        if (size <= 8) {
+          uint64_t v = 0;
+          memcpy(&v, addr, size);
+          char pn[160];
+          if (v < (1ull << 32)) snprintf(val, sizeof val, "%llu", (unsigned long long)v);
+          else if (loc_name((const void*)v, pn, sizeof pn)) snprintf(val, sizeof val, "@%s", pn);
+        }
+        tracef("%d prd %s %lu %s\n", t->id, nm, (unsigned long)size, val);
+      }
+    }
+  }
   for (uintptr_t w = p & ~7ull; w < p + size; w += 8) {
     Shadow& s = g_shadow[w];
     bool race = false;
@@ -318,7 +451,7 @@ struct Sentinel {
     me->st = DONE;
     tracef("%d exit\n", me->id);
     for (Thread* o : g_threads)
-      if (o->st == BLK_JOIN && o->wait_addr == me) { o->st = RUN; o->vc.join(me->vc); }
+      if (o->st == BLK_JOIN && o->wait_addr == me) { o->st = RUN; o->vc.join(me->vc); if (g_view) vt(o).cur.join(vt(me).cur); }
     reschedule(true);
     t_self = nullptr;
   }
@@ -357,7 +490,10 @@ void vrt_unname_all() {
 void vrt_payload(const void* addr, size_t len, const char* name) {
   g_payload.push_back({(uintptr_t)addr, (uintptr_t)addr + len, name});
 }
+void vrt_set_resolver(bool (*fn)(const void* addr, char* out, size_t cap)) { g_resolver = fn; }
+uint64_t vrt_stale_reads() { return g_stale_reads; }
 void vrt_payload_sched(int on) { g_payload_sched = on != 0; }
+void vrt_payload_trace(int on) { g_payload_trace = on != 0; }
 void vrt_event(const char* fmt, ...) {
   char buf[400];
   va_list ap;
@@ -375,6 +511,10 @@ void vrt_begin(uint64_t seed) {
   g_loc_clock.clear();
   g_mutex.clear();
   g_sc_clock = VC();
+  g_cells.clear();
+  g_mutex_view.clear();
+  g_sc_view = View();
+  g_stale_reads = 0;
   g_clock = 1000000000ull;
   g_steps = g_switches = g_races = 0;
   g_low_prio = 0;
@@ -385,6 +525,8 @@ void vrt_begin(uint64_t seed) {
   if ((e = getenv("VRT_STEP_LIMIT"))) g_step_limit = strtoull(e, nullptr, 10);
   if ((e = getenv("VRT_CAS_WEAK_FAIL"))) g_cas_weak_fail = atoi(e);
   if ((e = getenv("VRT_TRACE_ALL"))) g_trace_all = atoi(e) != 0;
+  if ((e = getenv("VRT_MEM"))) g_view = !strcmp(e, "view");
+  if ((e = getenv("VRT_STALE"))) g_stale = atoi(e);
   // vary the stickiness per seed so both long runs and fine interleavings are explored
   if (!getenv("VRT_STICK")) g_stick = (int[]) {0, 30, 60, 85, 95}[g_rng.below(5)];
   g_change_points.clear();
@@ -419,6 +561,10 @@ uint64_t vrt_switches() { return g_switches; }
 uint64_t vrt_now() { return g_clock; }
 uint64_t vrt_races() { return g_races; }
 void vrt_trace_clock(int on) { g_trace_clock = on != 0; }
+void vrt_trace_yield(int on) { g_trace_yield = on != 0; }
+void vrt_yield_time(int on) { g_yield_time = on != 0; }
+void vrt_clock_hook(void (*fn)(int, uint64_t)) { g_clock_hook = fn; }
+void vrt_trace_sleep(int on) { g_trace_sleep = on != 0; }
 
 // =============================================================================================
 // TSan ABI: atomics
@@ -426,8 +572,9 @@ void vrt_trace_clock(int on) { g_trace_clock = on != 0; }
   T __tsan_atomic##N##_load(const volatile T* a, int mo) {                                                    \
     if (!controlled()) return __atomic_load_n(a, __ATOMIC_SEQ_CST);                                           \
     reschedule(false);                                                                                        \
-    T v = __atomic_load_n(a, __ATOMIC_SEQ_CST);                                                               \
-    hb_load(t_self, a, mo);                                                                                   \
+    T v;                                                                                                      \
+    if (g_view) { v = (T)view_load(t_self, a, sizeof(T), mo); }                                               \
+    else { v = __atomic_load_n(a, __ATOMIC_SEQ_CST); hb_load(t_self, a, mo); }                                \
     char nm[160];                                                                                             \
     if (loc_name(a, nm, sizeof nm)) tracef("%d ld %s %s %llu\n", t_self->id, nm, mo_name(mo), (unsigned long long)(U)v); \
     return v;                                                                                                 \
@@ -435,17 +582,19 @@ void vrt_trace_clock(int on) { g_trace_clock = on != 0; }
   void __tsan_atomic##N##_store(volatile T* a, T v, int mo) {                                                 \
     if (!controlled()) { __atomic_store_n(a, v, __ATOMIC_SEQ_CST); return; }                                  \
     reschedule(false);                                                                                        \
+    if (g_view) { cell_sync((uintptr_t)a & ~7ull, byte_mask((uintptr_t)a & 7, sizeof(T))); }                  \
     __atomic_store_n(a, v, __ATOMIC_SEQ_CST);                                                                 \
-    hb_store(t_self, a, mo, false);                                                                           \
+    if (g_view) view_wrote(t_self, a, sizeof(T), mo, false); else hb_store(t_self, a, mo, false);             \
     char nm[160];                                                                                             \
     if (loc_name(a, nm, sizeof nm)) tracef("%d st %s %s %llu\n", t_self->id, nm, mo_name(mo), (unsigned long long)(U)v); \
   }                                                                                                           \
   T __tsan_atomic##N##_exchange(volatile T* a, T v, int mo) {                                                 \
     if (!controlled()) return __atomic_exchange_n(a, v, __ATOMIC_SEQ_CST);                                    \
     reschedule(false);                                                                                        \
+    if (g_view) { cell_sync((uintptr_t)a & ~7ull, byte_mask((uintptr_t)a & 7, sizeof(T))); view_read_latest(t_self, a, sizeof(T), mo); } \
     T old = __atomic_exchange_n(a, v, __ATOMIC_SEQ_CST);                                                      \
-    hb_load(t_self, a, mo);                                                                                   \
-    hb_store(t_self, a, mo, true);                                                                            \
+    if (g_view) view_wrote(t_self, a, sizeof(T), mo, true);                                                   \
+    else { hb_load(t_self, a, mo); hb_store(t_self, a, mo, true); }                                           \
     char nm[160];                                                                                             \
     if (loc_name(a, nm, sizeof nm))                                                                           \
       tracef("%d xchg %s %s %llu %llu\n", t_self->id, nm, mo_name(mo), (unsigned long long)(U)old, (unsigned long long)(U)v);        \
@@ -455,6 +604,7 @@ void vrt_trace_clock(int on) { g_trace_clock = on != 0; }
     if (!controlled()) return __atomic_compare_exchange_n(a, c, v, false, __ATOMIC_SEQ_CST, __ATOMIC_SEQ_CST); \
     reschedule(false);                                                                                        \
     T expected = *c;                                                                                          \
+    if (g_view) cell_sync((uintptr_t)a & ~7ull, byte_mask((uintptr_t)a & 7, sizeof(T)));                      \
     T cur = __atomic_load_n(a, __ATOMIC_SEQ_CST);                                                             \
     int ok;                                                                                                   \
     if (weak && cur == expected && g_cas_weak_fail > 0 && g_rng.below(g_cas_weak_fail) == 0) {                \
@@ -462,7 +612,8 @@ void vrt_trace_clock(int on) { g_trace_clock = on != 0; }
     } else {                                                                                                  \
       ok = __atomic_compare_exchange_n(a, c, v, false, __ATOMIC_SEQ_CST, __ATOMIC_SEQ_CST);                   \
     }                                                                                                         \
-    if (ok) { hb_load(t_self, a, mo); hb_store(t_self, a, mo, true); } else { hb_load(t_self, a, fmo); }      \
+    if (g_view) { view_read_latest(t_self, a, sizeof(T), ok ? mo : fmo); if (ok) view_wrote(t_self, a, sizeof(T), mo, true); } \
+    else if (ok) { hb_load(t_self, a, mo); hb_store(t_self, a, mo, true); } else { hb_load(t_self, a, fmo); } \
     char nm[160];                                                                                             \
     if (loc_name(a, nm, sizeof nm))                                                                           \
       tracef("%d cas%s %s %s %s %llu %llu %d %llu\n", t_self->id, weak ? "w" : "", nm, mo_name(mo), mo_name(fmo), \
@@ -483,9 +634,10 @@ void vrt_trace_clock(int on) { g_trace_clock = on != 0; }
   T __tsan_atomic##N##_fetch_##NAME(volatile T* a, T v, int mo) {                                             \
     if (!controlled()) return BUILTIN(a, v, __ATOMIC_SEQ_CST);                                                \
     reschedule(false);                                                                                        \
+    if (g_view) { cell_sync((uintptr_t)a & ~7ull, byte_mask((uintptr_t)a & 7, sizeof(T))); view_read_latest(t_self, a, sizeof(T), mo); } \
     T old = BUILTIN(a, v, __ATOMIC_SEQ_CST);                                                                  \
-    hb_load(t_self, a, mo);                                                                                   \
-    hb_store(t_self, a, mo, true);                                                                            \
+    if (g_view) view_wrote(t_self, a, sizeof(T), mo, true);                                                   \
+    else { hb_load(t_self, a, mo); hb_store(t_self, a, mo, true); }                                           \
     char nm[160];                                                                                             \
     if (loc_name(a, nm, sizeof nm))                                                                           \
       tracef("%d rmw " #NAME " %s %s %llu %llu\n", t_self->id, nm, mo_name(mo), (unsigned long long)(U)old, (unsigned long long)(U)v); \
@@ -510,6 +662,7 @@ void __tsan_atomic_thread_fence(int mo) {
   reschedule(false);
   __atomic_thread_fence(__ATOMIC_SEQ_CST);
   hb_fence(t_self, mo);
+  if (g_view) view_fence(t_self, mo);
   tracef("%d fence %s\n", t_self->id, mo_name(mo));
 }
 void __tsan_atomic_signal_fence(int) {}
@@ -557,6 +710,7 @@ int pthread_create(pthread_t* th, const pthread_attr_t* attr, void* (*fn)(void*)
   t->prio = (int)g_rng.below(900);
   t->vc = t_self->vc;
   t->vc.c[t->id] = 1;
+  if (g_view) { vt(t).cur = vt(t_self).cur; vt(t).acq = vt(t).cur; vt(t).rel = vt(t).cur; }
   t_self->vc.c[t_self->id]++;
   g_threads.push_back(t);
   int rc = rp(th, attr, trampoline, t);
@@ -575,7 +729,7 @@ int pthread_join(pthread_t th, void** ret) {
       if (t->id != 0 && pthread_equal(t->real_handle, th)) tgt = t;
     if (tgt) {
       reschedule(false);
-      if (tgt->st != DONE) block(BLK_JOIN, tgt, UINT64_MAX); else t_self->vc.join(tgt->vc);
+      if (tgt->st != DONE) block(BLK_JOIN, tgt, UINT64_MAX); else { t_self->vc.join(tgt->vc); if (g_view) vt(t_self).cur.join(vt(tgt).cur); }
       tracef("%d join %d\n", t_self->id, tgt->id);
     }
   }
@@ -593,6 +747,7 @@ int pthread_mutex_lock(pthread_mutex_t* m) {
       s.owner = t_self;
       s.count++;
       t_self->vc.join(s.clock);
+      if (g_view) vt(t_self).cur.join(g_mutex_view[m]);
       char nm[160];
       if (loc_name(m, nm, sizeof nm)) tracef("%d lock %s\n", t_self->id, nm);
       return 0;
@@ -623,6 +778,7 @@ int pthread_mutex_unlock(pthread_mutex_t* m) {
   if (--s.count == 0) {
     s.owner = nullptr;
     s.clock = t_self->vc;
+    if (g_view) g_mutex_view[m] = vt(t_self).cur;
     t_self->vc.c[t_self->id]++;
     for (Thread* o : g_threads)
       if (o->st == BLK_MUTEX && o->wait_addr == m) o->st = RUN;
@@ -742,11 +898,24 @@ long syscall(long nr, ...) {
 int sched_yield() {
   if (!controlled()) return (int)raw_syscall6(SYS_sched_yield, 0, 0, 0, 0, 0, 0);
   t_self->prio = --g_low_prio;
+  if (g_yield_time) {
+    // opt-in: the yielding thread is the only runnable one and somebody sleeps with a deadline ->
+    // time passes (a yield-spin waiting for a usleep-spinning thread makes progress)
+    bool others = false;
+    uint64_t best = UINT64_MAX;
+    for (Thread* t : g_threads) {
+      if (t != t_self && t->st == RUN) others = true;
+      if (t != t_self && t->st != RUN && t->st != DONE) best = std::min(best, t->deadline);
+    }
+    if (!others && best != UINT64_MAX) g_clock = std::max(g_clock, best);
+  }
   reschedule(true);
+  if (g_trace_yield) tracef("%d ev yield\n", t_self->id);
   return 0;
 }
 
 static void vsleep(uint64_t ns) {
+  if (g_trace_sleep) tracef("%d sleep %llu\n", t_self->id, (unsigned long long)ns);
   t_self->prio = --g_low_prio;
   block(SLEEPING, nullptr, g_clock + std::max<uint64_t>(ns, 1));
 }
@@ -779,6 +948,9 @@ int clock_gettime(clockid_t clk, struct timespec* ts) {
   ts->tv_sec = g_clock / 1000000000ull;
   ts->tv_nsec = g_clock % 1000000000ull;
   if (g_trace_clock) tracef("%d ev clock %llu\n", t_self->id, (unsigned long long)g_clock);
+  // the value handed back is already fixed; a hook that sleeps models a thread that is descheduled
+  // right after reading the clock
+  if (g_clock_hook) g_clock_hook(t_self->id, g_clock);
   return 0;
 }
 
